@@ -1,28 +1,39 @@
 --------------------------- MODULE PrngStreamTrace ---------------------------
 (* R3: accepts an ndjson log of real generators iff it is a behaviour of      *)
-(* PrngStream.  Events: new (seeded with stream s), out (one output, given by  *)
-(* its place <<s, n>> in the reference streams; s = n = -1 when the value is   *)
-(* not in any reference stream), save (MarshalBinary into slot k), restore     *)
-(* (UnmarshalBinary of slot k, cut = number of bytes cut off, err = an error   *)
-(* was returned), reset (next generator type).                                 *)
+(* PrngStream.  Events (every event carries every field):                      *)
+(*   make     a new value, f = "ctor" (from the constructor) or "zero"         *)
+(*   seed     Seed with seed number s                                          *)
+(*   out      one output, given by its place <<s, n>> in the reference streams *)
+(*            (s = n = -1 when the value is in no reference stream)            *)
+(*   save     MarshalBinary into slot k; b numbers the distinct byte strings   *)
+(*            in order of first appearance                                     *)
+(*   restore  UnmarshalBinary of slot k with cut bytes cut off / ext bytes     *)
+(*            appended; err = an error was returned.  A panic is a failure of  *)
+(*            the recorder itself and never reaches the log as a legal event.  *)
+(*   reset    next generator type                                              *)
+(* Expectations on lengths: complete state must be accepted; truncated state   *)
+(* must be refused; state followed by extra bytes may be refused or accepted   *)
+(* (the documentation does not say) - but if it is accepted the generator is   *)
+(* at the saved place.                                                         *)
 EXTENDS PrngStream, Json, TLCExt
 
 TraceLog == ndJsonDeserialize("trace.ndjson")
 VARIABLE l
-tvars == <<pos, snap, l>>
+tvars == <<pos, snap, img, tok, l>>
 Ev == TraceLog[l]
 Has == l <= Len(TraceLog)
 
-TNew == Has /\ Ev.op = "new" /\ New(Ev.g, Ev.s) /\ l' = l + 1
+TMake == Has /\ Ev.op = "make" /\ Ev.f \in {"ctor", "zero"} /\ Make(Ev.g, Ev.f) /\ l' = l + 1
+TSeed == Has /\ Ev.op = "seed" /\ Ev.s \in Streams /\ Seed(Ev.g, Ev.s) /\ l' = l + 1
 TOut == Has /\ Ev.op = "out" /\ Out(Ev.g, [s |-> Ev.s, n |-> Ev.n]) /\ l' = l + 1
-TSave == Has /\ Ev.op = "save" /\ Ev.err = FALSE /\ Save(Ev.g, Ev.k) /\ l' = l + 1
-\* complete state must be accepted, truncated state must be refused
+TSave == Has /\ Ev.op = "save" /\ Ev.err = FALSE /\ Save(Ev.g, Ev.k, Ev.b) /\ l' = l + 1
 TRestore == Has /\ Ev.op = "restore" /\ Ev.cut = 0 /\ Ev.err = FALSE /\ Restore(Ev.g, Ev.k) /\ l' = l + 1
-TRefuse == Has /\ Ev.op = "restore" /\ Ev.cut > 0 /\ Ev.err = TRUE /\ Refuse(Ev.g) /\ l' = l + 1
-TReset == Has /\ Ev.op = "reset" /\ pos' = [g \in Gens |-> Unknown] /\ snap' = [k \in Ids |-> Unknown] /\ l' = l + 1
+TRefuse == Has /\ Ev.op = "restore" /\ (Ev.cut > 0 \/ Ev.ext > 0) /\ Ev.err = TRUE /\ snap[Ev.k].b # 0 /\ Refuse(Ev.g) /\ l' = l + 1
+TReset == /\ Has /\ Ev.op = "reset" /\ pos' = [g \in Gens |-> Absent] /\ snap' = [k \in Ids |-> NoSnap]
+          /\ img' = [g \in Gens |-> 0] /\ tok' = <<>> /\ l' = l + 1
 
 TraceInit == Init /\ l = 1
-TraceNext == TNew \/ TOut \/ TSave \/ TRestore \/ TRefuse \/ TReset
+TraceNext == TMake \/ TSeed \/ TOut \/ TSave \/ TRestore \/ TRefuse \/ TReset
 TraceSpec == TraceInit /\ [][TraceNext]_tvars
 
 Accepted ==
